@@ -109,7 +109,9 @@ def choose(
         polynomial([q0, q1, q1**2])
 
     """
+    if isinstance(choices, (list, tuple)):
+        choices = numpoly.align_shape(*choices)
     choices = numpoly.aspolynomial(choices)
     a = numpy.asarray(a)
-    result = numpy.choose(a, choices=choices.values, out=out, mode=mode)
+    result = numpy.asarray(numpy.choose(a, choices=choices.values, out=out, mode=mode))
     return numpoly.aspolynomial(result, names=choices.indeterminants)
